@@ -1,4 +1,5 @@
 import DcmVerif.Proofs.Key
+import DcmVerif.Props.C01_stack
 /-! Property theorems for C01. Statements only; proofs are by reference to `Proofs/`. -/
 set_option autoImplicit false
 open Cls
